@@ -85,7 +85,7 @@ def run_one(h, scratch, logdir, sched, tier):
         sched.release(exp)
     text = open(logfile, errors="replace").read()
     r = K.parse_kani_log(text)
-    r.update({"harness": h.name, "rc": rc, "wall_s": round(wall, 1), "log": logfile})
+    r.update({"harness": h.name, "rc": rc, "wall_s": round(wall, 1), "log": logfile, "extra_args": extra})
     # classification
     if rc is None:
         r["class"] = "inconclusive"
